@@ -401,8 +401,8 @@ def run(ctx):
                 if d:
                     mism.append(({'job': o['job'], 'arch': o['arch']}, d))
             ctx.extra['whole_networks_evaluated_in_coq'] = len(xn)
-            # fragment for which run_net is PROVED to compute ceval_pit / ceval_exp (C01_run_net_sound_partial): 1-D, no pooling
-            ctx.extra['whole_networks_in_proved_fragment'] = sum(1 for o, _ in xn if o['spec']['dim'] == 1 and not any(nd['k'].startswith('maxpool') for nd in o['spec']['nodes']))
+            # run_net is PROVED to compute ceval_pit / ceval_exp for every node kind it has (C01_run_net_sound): all evaluated networks
+            ctx.extra['whole_networks_in_proved_fragment'] = len(xn)
             vals = ctx.coq_eval_sharded('lcases', IMPORTS, '', [layer_case_exprs(c) for c in lays], shard=100)
             for c, (ypit, yexp, mout, tm) in zip(lays, vals):
                 ctx.corr += 1
